@@ -30,30 +30,36 @@ func dummyL1Leaf() *agglayertypes.L1InfoTreeLeaf {
 
 // c19Consumers returns, per consumer, the 256-bit global index value that consumer carries for
 // the claim (nil when the consumer could not be observed).
-func c19Consumers(r *mon.Run, caseID string, sc any, claim bridgesync.Claim,
-	ibe *agglayertypes.ImportedBridgeExit) map[string]*big.Int {
-	out := map[string]*big.Int{}
+func c19Consumers(r *mon.Run, caseID string, sc any, claims []bridgesync.Claim,
+	ibes []*agglayertypes.ImportedBridgeExit) map[string][]*big.Int {
+	out := map[string][]*big.Int{}
 
 	// --- wire message built by the real gRPC client -------------------------------------------
 	sub := &fakes.SubmissionCapture{}
 	cl := agglayergrpc.VerifNewAgglayerGRPCClient(grpcCfg(), nil, nil, sub)
-	if ibe.GlobalIndex.MainnetFlag {
-		ibe.ClaimData = &agglayertypes.ClaimFromMainnnet{
-			ProofLeafMER: &agglayertypes.MerkleProof{}, ProofGERToL1Root: &agglayertypes.MerkleProof{}, L1Leaf: dummyL1Leaf()}
-	} else {
-		ibe.ClaimData = &agglayertypes.ClaimFromRollup{
-			ProofLeafLER: &agglayertypes.MerkleProof{}, ProofLERToRER: &agglayertypes.MerkleProof{},
-			ProofGERToL1Root: &agglayertypes.MerkleProof{}, L1Leaf: dummyL1Leaf()}
+	for _, ibe := range ibes {
+		if ibe.GlobalIndex.MainnetFlag {
+			ibe.ClaimData = &agglayertypes.ClaimFromMainnnet{
+				ProofLeafMER: &agglayertypes.MerkleProof{}, ProofGERToL1Root: &agglayertypes.MerkleProof{}, L1Leaf: dummyL1Leaf()}
+		} else {
+			ibe.ClaimData = &agglayertypes.ClaimFromRollup{
+				ProofLeafLER: &agglayertypes.MerkleProof{}, ProofLERToRER: &agglayertypes.MerkleProof{},
+				ProofGERToL1Root: &agglayertypes.MerkleProof{}, L1Leaf: dummyL1Leaf()}
+		}
 	}
 	cert := &agglayertypes.Certificate{
 		NetworkID:           1,
-		ImportedBridgeExits: []*agglayertypes.ImportedBridgeExit{ibe},
+		ImportedBridgeExits: ibes,
 		AggchainData:        &agglayertypes.AggchainDataSignature{Signature: make([]byte, 65)},
 	}
 	if _, err := cl.SendCertificate(context.Background(), cert); err != nil {
 		r.Violation("C19:consumer:protobuf-error", caseID, "SendCertificate conversion failed: "+err.Error(), sc)
-	} else if req := sub.Last(); req != nil && len(req.Certificate.ImportedBridgeExits) == 1 {
-		out["protobuf"] = new(big.Int).SetBytes(req.Certificate.ImportedBridgeExits[0].GlobalIndex.Value)
+	} else if req := sub.Last(); req != nil && len(req.Certificate.ImportedBridgeExits) == len(ibes) {
+		for _, x := range req.Certificate.ImportedBridgeExits {
+			out["protobuf"] = append(out["protobuf"], new(big.Int).SetBytes(x.GlobalIndex.Value))
+		}
+	} else {
+		r.Violation("C19:consumer:protobuf-count", caseID, "protobuf request does not carry one imported exit per claim", sc)
 	}
 
 	// --- prover request built by the real aggchain-proof client -------------------------------
@@ -61,35 +67,53 @@ func c19Consumers(r *mon.Run, caseID string, sc any, claim bridgesync.Claim,
 	pcl := aggchainproofclient.VerifNewAggchainProofClient(grpcCfg(), pc)
 	preq := aggsendertypes.NewAggchainProofRequest(1, 2, common.Hash{}, l1infotreesync.L1InfoTreeLeaf{},
 		agglayertypes.MerkleProof{}, nil,
-		[]*agglayertypes.ImportedBridgeExitWithBlockNumber{{BlockNumber: 5, ImportedBridgeExit: ibe}})
+		func() []*agglayertypes.ImportedBridgeExitWithBlockNumber {
+			var l []*agglayertypes.ImportedBridgeExitWithBlockNumber
+			for i, ibe := range ibes {
+				l = append(l, &agglayertypes.ImportedBridgeExitWithBlockNumber{BlockNumber: uint64(5 + i), ImportedBridgeExit: ibe})
+			}
+			return l
+		}())
 	if _, err := pcl.GenerateAggchainProof(context.Background(), preq); err != nil {
 		r.Violation("C19:consumer:prover-request-error", caseID, "GenerateAggchainProof failed: "+err.Error(), sc)
-	} else if req := pc.Last(); req != nil && len(req.ImportedBridgeExits) == 1 {
-		out["prover-request"] = new(big.Int).SetBytes(req.ImportedBridgeExits[0].GlobalIndex.Value)
+	} else if req := pc.Last(); req != nil && len(req.ImportedBridgeExits) == len(ibes) {
+		for _, x := range req.ImportedBridgeExits {
+			out["prover-request"] = append(out["prover-request"], new(big.Int).SetBytes(x.GlobalIndex.Value))
+		}
+	} else {
+		r.Violation("C19:consumer:prover-request-count", caseID, "prover request does not carry one imported exit per claim", sc)
 	}
 
 	// --- optimistic commitment input -----------------------------------------------------------
-	// hash = keccak( LE32(globalIndex) || bridgeExitHash ); recover the global index part by
-	// recomputing with the value the certificate struct carries.
-	got := optimistichash.CalculateCommitImportedBrdigeExitsHashFromClaims([]bridgesync.Claim{claim})
-	leafType := agglayertypes.LeafTypeAsset
-	if claim.IsMessage {
-		leafType = agglayertypes.LeafTypeMessage
+	// hash = keccak( for each claim: LE32(globalIndex) || bridgeExitHash ); recomputed from the
+	// claims' own global indexes.
+	got := optimistichash.CalculateCommitImportedBrdigeExitsHashFromClaims(claims)
+	var combined []byte
+	for _, claim := range claims {
+		leafType := agglayertypes.LeafTypeAsset
+		if claim.IsMessage {
+			leafType = agglayertypes.LeafTypeMessage
+		}
+		be := agglayertypes.BridgeExit{LeafType: leafType,
+			TokenInfo:          &agglayertypes.TokenInfo{OriginNetwork: claim.OriginNetwork, OriginTokenAddress: claim.OriginAddress},
+			DestinationNetwork: claim.DestinationNetwork, DestinationAddress: claim.DestinationAddress,
+			Amount: claim.Amount, Metadata: claim.Metadata}
+		var be32 [32]byte
+		claim.GlobalIndex.FillBytes(be32[:])
+		le := make([]byte, 32)
+		for i := range le {
+			le[i] = be32[31-i]
+		}
+		combined = append(combined, le...)
+		combined = append(combined, be.Hash().Bytes()...)
 	}
-	be := agglayertypes.BridgeExit{LeafType: leafType,
-		TokenInfo:          &agglayertypes.TokenInfo{OriginNetwork: claim.OriginNetwork, OriginTokenAddress: claim.OriginAddress},
-		DestinationNetwork: claim.DestinationNetwork, DestinationAddress: claim.DestinationAddress,
-		Amount: claim.Amount, Metadata: claim.Metadata}
-	var be32 [32]byte
-	claim.GlobalIndex.FillBytes(be32[:])
-	le := make([]byte, 32)
-	for i := range le {
-		le[i] = be32[31-i]
-	}
-	if got == crypto.Keccak256Hash(le, be.Hash().Bytes()) {
-		out["optimistic"] = new(big.Int).Set(claim.GlobalIndex)
-	} else {
-		out["optimistic"] = big.NewInt(-1)
+	ok := got == crypto.Keccak256Hash(combined)
+	for _, claim := range claims {
+		if ok {
+			out["optimistic"] = append(out["optimistic"], new(big.Int).Set(claim.GlobalIndex))
+		} else {
+			out["optimistic"] = append(out["optimistic"], big.NewInt(-1))
+		}
 	}
 	return out
 }
